@@ -179,6 +179,11 @@ def check(tier="quick", seed=0, workers=None, only=None):
                 classes.add(cl)
     cst, cinfo = conc.run_for("C13", tier, seed, workers, only)
     viols += common.collect(cst, ("C13",))
+    # the sync backend's send loop under short writes: what the peer decodes must be the caller's upload
+    from . import backends
+    bst, binfo = backends.run_for(tier, seed, workers, None, purpose="uploads") if not only else (engine.Stats(bound=2), {})
+    viols += common.collect(bst, ("C13",))
+    cst.merge_from(bst)
     cov = evidence.stats_coverage(
         cst,
         rule=("(1)+(2) full matrix of upload sizes around window multiples x INITIAL_WINDOW_SIZE x MAX_FRAME_SIZE x chunking x variant and the download runs, judged by the peer's window books; "
